@@ -302,6 +302,16 @@ let run (op : string) (a : string list) : string list =
   | "p7_sign", [cert_raw; issuer; serial; oid; content; time; sg; tbs; impl] ->
       [verdict (check_sign (bytes_of_hex cert_raw) (bytes_of_hex issuer) (n_of_string serial) (oid_of_string oid)
                   (bytes_of_hex content) (bytes_of_hex time) (bytes_of_hex sg) (bytes_of_hex tbs) (bytes_of_hex impl))]
+  (* C06 *)
+  | "efi_sign", [cert_raw; issuer; serial; name; g; attrs; tm; payload; p7time; sg; tbs; impl] ->
+      let t = time_of_string tm in
+      [verdict (check_efi_sign (bytes_of_hex cert_raw) (bytes_of_hex issuer) (n_of_string serial) (bytes_of_hex name)
+                  (guid_of_string g) (n_of_string attrs) t (bytes_of_hex payload) (bytes_of_hex p7time)
+                  (bytes_of_hex sg) (bytes_of_hex tbs) (bytes_of_hex impl));
+       hex_of_bytes (efi_signed_buffer (bytes_of_hex name) (guid_of_string g) (n_of_string attrs) t (bytes_of_hex payload));
+       hex_of_bytes (efi_sign_model (bytes_of_hex cert_raw) (bytes_of_hex issuer) (n_of_string serial) (bytes_of_hex name)
+                  (guid_of_string g) (n_of_string attrs) t (bytes_of_hex payload) (bytes_of_hex p7time) (bytes_of_hex sg));
+       hex_of_bytes (efi_sign_tbs_model (bytes_of_hex name) (guid_of_string g) (n_of_string attrs) t (bytes_of_hex payload) (bytes_of_hex p7time))]
   | _ -> ["skip"; "unknown op " ^ op]
 
 let () =
